@@ -88,7 +88,10 @@ def f_signer_other(s, r): s.signer_kind = s.kind; s.signer_slot = 1
 def f_stored_key_other(s, r): s.stored_key_kind = s.kind
 def f_sign_ad_only(s, r): s.sign_over = "ad-only"
 def f_sign_cdj_raw(s, r): s.sign_over = "cdj-raw"
-def f_counter_equal(s, r): s.stored = s.count
+def f_counter_equal(s, r):
+    if s.count == 0:
+        s.count = r.choice([1, 7, 2 ** 31])       # 0 = 0 is the one equal pair the rule accepts
+    s.stored = s.count
 def f_counter_lower(s, r): s.stored = s.count + r.choice([1, 2, 1000])
 def f_counter_zero_vs_stored(s, r): s.count = 0; s.stored = r.choice([1, 5, 2 ** 31])
 def f_bs_without_be(s, r): s.flags = (s.flags | 0x10) & ~0x08
